@@ -6,7 +6,7 @@ use crate::harness::*;
 use crate::p3::*;
 use crate::util::*;
 use prio::vdaf::poplar1::Poplar1;
-use prio::vdaf::prio3::Prio3;
+use prio::vdaf::prio3::{Prio3, Prio3InputShare};
 use prio::vdaf::xof::{Xof, XofTurboShake128};
 use prio::vdaf::Aggregator;
 use proptest::prelude::*;
@@ -234,6 +234,10 @@ impl<'a> VdafVisitor for P3Run<'a> {
         if decode_true_role {
             obs.label("agg-id:share-decoded-under-true-role");
         }
+        let blind_flag = decode_true_role && !cfg.inst.has_joint_rand() && case.nonce_seed % 2 == 0;
+        if blind_flag {
+            obs.label("agg-id:share-with-unneeded-blind");
+        }
         let attempt = |key_seed: u64| -> (Attempt, Expect) {
             let views = build_views(case, n, cfg.alg_id, key_seed);
             let exp = expectation(&views, &case.ctx.0, &nonce, cfg.alg_id, !cfg.inst.has_joint_rand());
@@ -267,7 +271,21 @@ impl<'a> VdafVisitor for P3Run<'a> {
                 // position j and only verify_init runs under the wrong one)
                 let a = AggInput { agg_id: v.id, verify_key: v.key, ctx: v.ctx.clone(), nonce: v.nonce, public_share: sh.public_share.clone(), input_share: sh.input_shares[j].clone() };
                 let decode_id = if decode_true_role { j } else { v.id };
-                match init_wire_as(&insts[j], &(), &a, decode_id) {
+                // for a type without joint randomness, the share decoded under its true position may
+                // in addition carry a blind nobody needs (an in-memory object; the decoder never
+                // yields one): processing it under another identifier is still a mismatch
+                let with_blind = blind_flag && v.id != j;
+                let r = init_wire_edit(&insts[j], &(), &a, decode_id, |s| {
+                    if !with_blind {
+                        return s;
+                    }
+                    match s {
+                        Prio3InputShare::Leader { measurement_share, proofs_share, joint_rand_blind: None } => Prio3InputShare::Leader { measurement_share, proofs_share, joint_rand_blind: Some(seed_from(&[7u8; 32])) },
+                        Prio3InputShare::Helper { meas_and_proofs_share, joint_rand_blind: None } => Prio3InputShare::Helper { meas_and_proofs_share, joint_rand_blind: Some(seed_from(&[9u8; 32])) },
+                        other => other,
+                    }
+                });
+                match r {
                     Ok(o) => {
                         states.push(o.state);
                         shares.push(o.verifier_share);
